@@ -3264,7 +3264,6 @@ func (s *TreeShapeListener) ExitView(ctx *parser.ViewContext) {
 // EnterEnum is called when production enum is entered.
 func (s *TreeShapeListener) EnterEnum(ctx *parser.EnumContext) {
 	s.currentTypePath.Push(MustUnescape(ctx.Name().GetText()))
-	defer s.currentTypePath.Pop()
 
 	// Build a map of enumerations. If there are none (due to WHATEVER
 	// as the only content), don't add the enum type to the sysl AST.
@@ -3309,11 +3308,10 @@ func (s *TreeShapeListener) EnterEnum(ctx *parser.EnumContext) {
 
 // ExitEnum is called when production enum is exited.
 func (s *TreeShapeListener) ExitEnum(ctx *parser.EnumContext) {
-	if s.currentApp().Types[s.currentTypePath.Get()] == nil {
-		return
-	}
-	s.applyAnnotations(ctx.AllAnnotation())
+	// EnterEnum always pushes the enum's scope, so it is always popped here: a scope left behind
+	// would receive the annotations of whatever follows the enum in the application.
 	s.popScope()
+	s.currentTypePath.Pop()
 }
 
 // EnterAlias is called when production alias is entered.
